@@ -108,10 +108,15 @@ func (nr *NumberingResolver) ResolveLevel(numID string, level int) (listType Lis
 			case "upperRoman":
 				listType = ListTypeOrdered
 				bullet = "" // I., II., III.
-			default:
-				// Default to bullet
+			case "", "none":
+				// No number format: treat as a bullet
 				listType = ListTypeUnordered
 				bullet = "•"
+			default:
+				// Every other format (decimalZero, ordinal, cardinalText, ...)
+				// numbers its items: the list is ordered
+				listType = ListTypeOrdered
+				bullet = ""
 			}
 
 			// Get start value
